@@ -553,7 +553,29 @@ def grid_histories(tier):
                 "op": "Register", "attrs": [["Cryptographic Usage Mask", F.ALL_MASK], ["Sensitive", val]],
                 "obj": {"type": "SymmetricKey", "value": "$c:key-symmetric:cs%s:32" % val, "alg": "AES",
                         "len": 256, "fmt": "RAW"}}))
+        # texts longer than any column of the store was declared for
+        for n in (50, 51, 64, 300):
+            for attr in ("Operation Policy Name", "Name", "Object Group"):
+                if attr == "Operation Policy Name" and tuple(v) >= (2, 0):
+                    continue
+                creators.append(("Register-canary-long-%s-%d" % (attr.split()[0], n), {
+                    "op": "Register", "attrs": [["Cryptographic Usage Mask", F.ALL_MASK], [attr, "L" * n]],
+                    "obj": {"type": "SymmetricKey", "value": "$c:key-symmetric:lg%s%d:32" % (attr[0], n),
+                            "alg": "AES", "len": 256, "fmt": "RAW"}}))
+                creators.append(("Create-long-%s-%d" % (attr.split()[0], n), F.create_item(extra_attrs=[[attr, "L" * n]])))
         out += chunked("creators-%d.%d" % v, creators, v, 30)
+    # ... and a requester whose name is (client certificate common names go up to 64 characters)
+    long_who = "u" * 59
+    out += chunked("creators-long-identity", [
+        ("Create-as-long-identity", F.create_item()),
+        ("CreateKeyPair-as-long-identity", F.keypair_item()),
+        ("Register-canary-as-long-identity", {
+            "op": "Register", "attrs": [["Cryptographic Usage Mask", F.ALL_MASK]],
+            "obj": {"type": "SymmetricKey", "value": "$c:key-symmetric:lid:32", "alg": "AES", "len": 256, "fmt": "RAW"}}),
+        ("Register-secret-as-long-identity", {
+            "op": "Register", "attrs": [["Cryptographic Usage Mask", F.ALL_MASK]],
+            "obj": {"type": "SecretData", "value": "$c:secret-data:lid2:24", "dtype": "PASSWORD"}})],
+        (1, 2), 30, long_who)
     out.append(many_keys_history())
     out += internal_error_histories()
     # control: with DEBUG switched on the session logs every frame in hex - records below INFO
